@@ -63,6 +63,16 @@ CHECKS = {
    text="Finite and complete for the static evaluation: all 3x6x64 + 2x6x64 table entries satisfy B[s][p][sq^56] = -W[s][p][sq]; white/black are paired with the two tables at the same stage and each piece with its row; game_stage's truth table (2^4 rows) is invariant under swapping the players; the material term is f(white) - f(black); the two mate scores are exact negations, affine in the move number with the sign that prefers nearer mates; the colour factor folds to +1/-1. Search-score symmetry is not decided.",
    note="Trusted base: rustc const evaluation + MIR, the extractor, the path enumerator and affine evaluator. Assumes PlayerState accessors are colour-blind (they take one PlayerState).",
    ref="4/C11"),
+ "C02": dict(
+   technique="static analysis: Move layout derived from getter/setter MIR, bit-level may-analysis, reader-set comparison, exhaustive path enumeration of the move constructor with a board-geometry oracle for the castling-right squares",
+   text="Decides structural necessary conditions of 'make produces the successor' for every position and move: field layout well-formed and disjoint, setters reach their fields, every recorded effect has its reader in make/unmake/zobrist_xor, make applies clock/e.p./move number/side correctly, the clock-reset flag is set exactly for pawn moves and captures (all 10^3 paths of make_move enumerated), and each castling-right-lost flag is set exactly for the rook/king home squares of the right colour (geometry oracle, both colours). Does not decide successor equality.",
+   note="Trusted: rustc MIR, the extractor, path evaluator, geometry oracle; the reader table (Appendix A.1) is keyed by getter names.",
+   ref="4/C02"),
+ "C06": dict(
+   technique="static analysis: compiler-evaluated Zobrist key material (distinctness, zero rows), folded castle_hash, call-graph field read sets, operand-level agreement of make / zobrist_xor / search",
+   text="Decides: all 781 keys non-zero and pairwise distinct with the two no-piece rows zero (exactly the condition for 'any single component change changes the hash', given the read set); the from-scratch hashes read placement/side/rights/e.p. and never the clocks; all 12 piece-colour combinations hashed with matching constants; e.p. key by file; make and zobrist_xor agree on castling squares, e.p. victim square and which move fields they read; the search threads hash ^ delta of the move it made. Does not decide incremental == recomputed for every move.",
+   note="Trusted: rustc const evaluation + MIR, the extractor.",
+   ref="4/C06"),
 }
 NOT_APPLICABLE = {
  "C17": "PGN tokenisation under arbitrary read fragmentation is decided by runtime bytes; the only structural clause in reach (buffer read only behind ensure_buffer) is too weak to stand for the property (DESIGN.md section 1).",
